@@ -1,6 +1,6 @@
 #!/bin/bash
 # runall.sh [tier] : runs every claimed check on the current tree and prints one line each
-cd /verif
+cd "$(dirname "$0")/.."
 TIER=${1:-quick}
 for p in $(python3 -c "import json;print(' '.join(c['property_id'] for c in json.load(open('MANIFEST.json'))['checks']))"); do
   s=$(date +%s)
